@@ -364,8 +364,12 @@ func genRefStream(r *Rng, o streamOpts) *refStreamModel {
 			pmt := &refSection{TableID: 2, Ext: pat.Programs[len(pat.Programs)-1].Number, Version: byte(r.Intn(32))}
 			for _, pid := range pesPIDs {
 				st := refStream{Type: []byte{0x1b, 0x0f, 0x03, 0x06, 0x81}[r.Intn(5)], PID: pid}
-				if r.Chance(1, 3) {
+				switch r.Intn(4) {
+				case 0:
 					st.Desc = append([]byte{0x13, byte(2)}, r.Bytes(2)...) // an unknown descriptor tag
+				case 1:
+					n := r.Range(1, 6)
+					st.Desc = append([]byte{byte(0x80 + r.Intn(0x7f)), byte(n)}, r.Bytes(n)...) // a user defined descriptor
 				}
 				pmt.Streams = append(pmt.Streams, st)
 			}
